@@ -43,3 +43,122 @@ def closure_sessions(seed, n):
                 'hcall': {'h': 'call', 'mode': r.choice(['propagate', 'swallow'])}}
         out.append({'names': [{}], 'host': host, 'calls': calls, 'fresh': False})
     return out
+
+
+# ---- C09: probe expressions -------------------------------------------------------------
+def _probe_expr(r, d, ctr):
+    def leaf():
+        ctr[0] += 1
+        return 't%d()' % ctr[0]
+    if d <= 0 or r.random() < 0.25:
+        return leaf()
+    c = r.randrange(17)
+    e = lambda: _probe_expr(r, d - 1, ctr)   # noqa
+    if c == 0:
+        a = e(); b = e(); return '(%s %s %s)' % (a, r.choice(['and', 'or']), b)
+    if c == 1:
+        a = e(); b = e(); return '(%s %s %s)' % (a, r.choice(['+', '-', '*', '<', '==', 'in', 'not in', '>=']), b)
+    if c == 2:
+        return '(%s %s)' % (r.choice(['not', '-']), e())
+    if c == 3:
+        a = e(); cnd = e(); b = e()      # textual order: then, cond, else
+        return '(%s if %s else %s)' % (a, cnd, b)
+    if c == 4:
+        xs = [e() for _ in range(r.randrange(0, 4))]; return '[' + ', '.join(xs) + ']'
+    if c == 5:
+        xs = [(e(), e()) for _ in range(r.randrange(1, 3))]; return '{' + ', '.join('%s: %s' % p for p in xs) + '}'
+    if c == 6:
+        a = e(); b = e(); return '%s[%s]' % (a if a.endswith(')') and not a.startswith('(') else '(' + a + ')', b)
+    if c == 7:
+        a = leaf(); parts = [e() if r.random() < 0.7 else '' for _ in range(3)]
+        return '%s[%s:%s:%s]' % (a, parts[0], parts[1], parts[2])
+    if c == 8:
+        xs = [e() for _ in range(r.randrange(1, 4))]; return '%s(%s)' % (r.choice(['max', 'min', 'list', 'len', 'str', 'nosuchfn']), ', '.join(xs))
+    if c == 9:
+        a = leaf(); xs = [e() for _ in range(r.randrange(0, 3))]; return '%s.%s(%s)' % (a, r.choice(['get', 'push', 'index_of']), ', '.join(xs))
+    if c == 10:
+        a = e(); xs = [e() for _ in range(r.randrange(0, 3))]
+        return '(%s | %s(%s))' % (a, r.choice(['get', 'push', 'join']), ', '.join(xs))
+    if c == 11:
+        a = e(); return '(%s | len)' % a
+    if c == 12:
+        a = e(); b = e(); return '(%s ** %s)' % (a, b)
+    return leaf()
+
+
+def probe_programs(seed, n, depth=3):
+    """Expression and statement forms with a distinct host probe at every leaf; random
+    outcomes per probe (truthy/falsy number, string, the host list, the host dict, raises)."""
+    r = random.Random(seed)
+    out = []
+    for i in range(n):
+        ctr = [0]
+        form = r.randrange(8)
+        if form == 0:
+            a = 't%d()' % 1; ctr[0] = 1
+            src = '%s[%s] = %s' % (a, _probe_expr(r, depth - 1, ctr), _probe_expr(r, depth - 1, ctr))
+        elif form == 1:
+            a = 't%d()' % 1; ctr[0] = 1
+            src = '%s[%s] %s %s' % (a, _probe_expr(r, depth - 1, ctr), r.choice(['+=', '-=', '*=']), _probe_expr(r, depth - 1, ctr))
+        elif form == 2:
+            a = _probe_expr(r, 1, ctr)
+            src = 'del %s[%s]' % (a if not a.startswith('(') else a, _probe_expr(r, depth - 1, ctr))
+        elif form == 3:
+            src = 'x = %s\ny %s %s' % (_probe_expr(r, depth - 1, ctr), r.choice(['+=', '*=']), _probe_expr(r, depth - 1, ctr))
+        else:
+            src = _probe_expr(r, depth, ctr)
+        hl = [0, 1, 2]
+        hd = {'a': 1, '1': 2}
+        host = {}
+        for k in range(1, ctr[0] + 1):
+            o = r.choice(['one', 'zero', 'list', 'dict', 'raise', 'str', 'two', 'none'])
+            ret = {'one': 1, 'zero': 0, 'list': hl, 'dict': hd, 'raise': 0, 'str': 'a', 'two': Decimal(2), 'none': None}[o]
+            host['t%d' % k] = {'h': 'probe', 'ret': ret, 'raises': o == 'raise'}
+        out.append({'names': [{'y': 1, 'hl': hl, 'hd': hd}], 'host': host, 'calls': [{'src': src, 'n': 0, 'max': 300}]})
+    return out
+
+
+# ---- C10: scoping ---------------------------------------------------------------------------
+def scoping_programs(seed, n):
+    """A name bound at one, two or three levels; nested / re-entrant lambda calls; bodies that
+    assign (AST lambdas), bodies that raise inside map/filter/reduce/sorted or under a swallowing
+    host callback; host mappings that are exactly equal to a parameter binding."""
+    r = random.Random(seed)
+    out = []
+    for i in range(n):
+        X = r.choice(['len', 'x', 'str', 'v'])
+        names = {}
+        if r.random() < 0.6:
+            names[X] = r.choice([7, 2, Decimal(2), 'hv'])
+        if r.random() < 0.4:
+            names['l'] = [1, 2, 3]
+        host = {}
+        if r.random() < 0.5:
+            host['hcall'] = {'h': 'call', 'mode': r.choice(['swallow', 'propagate'])}
+        if r.random() < 0.3:
+            host['t1'] = {'h': 'probe', 'ret': 5, 'raises': r.random() < 0.3}
+        ast = []
+        if r.random() < 0.6:
+            body = '\n'.join(r.choice(['%s = 5' % X, '%s += 1' % X, 'y = %s' % X, X, 'undefined_name', 'g()', 'q = [%s]' % X,
+                                       'f(p - 1, 9) if p > 0 else %s' % X, 'hcall(g)' if 'hcall' in host else X, 't1()' if 't1' in host else '1'])
+                             for _ in range(r.randrange(1, 4)))
+            ast.append(('g', {'params': [], 'body': r.choice(['y', X, '%s = 8\n%s' % (X, X), 'nosuch', '1'])}))
+            ast.append(('f', {'params': r.choice([[], [X], ['p'], ['p', X]]), 'body': body}))
+        lines = []
+        for _ in range(r.randrange(1, 5)):
+            arg = r.choice(['1', '2', '0', X if X in names else '3'])
+            lines.append(r.choice([
+                '%s = 3' % X, X, 'f(%s, 2)' % arg if ast else '(%s => %s + 1)(1)' % (X, X) if False else 'h = %s => %s' % (X, X),
+                '[%s] | map(%s => %s * 10)' % (arg, X, X), 'r = [2] | map(%s => %s)' % (X, X), 'h(%s)' % arg,
+                'hcall(f, %s, 2)' % arg if (ast and 'hcall' in host) else 'z = 1',
+                '[1, 2] | map(f)' if ast else 'z = 2', 'sorted([2, 1], f)' if ast else X, '%s("ab")' % X,
+                '[3, 1] | filter(%s => undefined_name)' % X, 'w = %s => (q => %s + q)' % (X, X), '[1, 2] | reduce((%s, q) => %s + q)' % (X, X),
+                'hcall(%s => nosuch, 1)' % X if 'hcall' in host else '%s = 9' % X, 'k = 7', '{"a": 1} | map((%s, q) => %s)' % (X, X)]))
+        call = {'src': '\n'.join(lines), 'n': 0, 'max': r.choice([None, 200, 12, 25])}
+        if ast:
+            call['ast'] = ast
+        calls = [call]
+        if r.random() < 0.3:
+            calls.append({'src': r.choice(['h(1)', X, 'w(1)', 'r']), 'n': 0, 'max': 50})
+        out.append({'names': [names], 'host': host, 'calls': calls})
+    return out
